@@ -331,6 +331,12 @@ func (c *Ctx) mapRangeJustification(mr mapRange, con string) (string, bool) {
 		suffix = "children"
 	}
 	j, ok := jget("mapRangeJustified", mapRangeJustified, fnName+" | "+suffix)
+	if !ok {
+		// the loop may have moved into a private helper of the function the reason was written for
+		if root := c.inlineRoot(mr.fn); root != nil && root != mr.fn {
+			j, ok = jget("mapRangeJustified", mapRangeJustified, c.FnName(root)+" | "+suffix)
+		}
+	}
 	return j, ok
 }
 
